@@ -1334,3 +1334,5 @@ RULE += (' Added to the adapter matrix: an element that is both callable and ite
 RULE += (' Added: the bare accumulator as the first branch of a Split whose later branches change '
          'the contexts they receive in place.')
 RULE += (' Added: valid elements whose repr() / str() fails (the text of an element is needed for an error message only).')
+
+RULE += (' Round 10: chains with up to 10 pre and 6 post elements over flows of 17..300 values; flows of 1030..2600 values through step Slices; explicit FillInto adapters; chains deep-copied / pickled after some fills.')
